@@ -228,7 +228,7 @@ def path_ops(n, tier):
         ops += [['reverse'], ['delslice', 0, 2]]
     if n:
         ops += [['q_length'], ['q_length_coarse'], ['q_length_sub'], ['q_point'], ['q_T2t'],
-                ['q_start'], ['q_end']]
+                ['q_start'], ['q_end'], ['q_all']]
     return ops
 
 
@@ -276,6 +276,9 @@ def apply_path_op(p, op, tier):
         return outcome(lambda: p.start)
     elif o == 'q_end':
         return outcome(lambda: p.end)
+    elif o == 'q_all':
+        # every public query once, on the object itself (fills whatever cache any of them keeps)
+        return ('ok', [(n, outcome(lambda: f(p))) for n, f in QUERY_FNS if n != 'length'])
     else:
         raise ValueError(op)
     return None
@@ -295,6 +298,9 @@ QUERY_FNS = [
     ('bbox', lambda p: p.bbox()),
     ('d', lambda p: p.d()),
     ('iscontinuous', lambda p: p.iscontinuous()),
+    ('radialrange', lambda p: p.radialrange(complex(2 * S, 11 * S)) if not any(isinstance(x, Arc) for x in p) else None),
+    ('unit_tangent', lambda p: p.unit_tangent(0.3)),
+    ('continuous_subpaths', lambda p: [len(x) for x in p.continuous_subpaths()]),
 ]
 
 
@@ -307,6 +313,8 @@ def close(a, b, tol=TOL):
     if a is None or b is None or isinstance(a, bool) or isinstance(b, bool):
         return a == b and type(a) == type(b) or (a is None and b is None)
     try:
+        if a == b:
+            return True
         d = abs(complex(a) - complex(b))
     except TypeError:
         return a == b
@@ -369,6 +377,16 @@ def inspect_path(tier, cfg):
                  cls='path/%s/len%d/%s' % (cfg_name(cfg), len(p), 'cached' if populated else 'nocache'),
                  nontrivial=bool(hist))
         acc.traces += 1
+        # equality must not depend on what either side has cached: compare the untouched copy with a
+        # fresh path that has answered length() with default tolerances
+        p0 = copy.deepcopy(p)
+        f_len = Path(*[rebuild_by_value(s) for s in p])
+        outcome(lambda: f_len.length())
+        e0 = outcome(lambda: (p0 == f_len, f_len == p0, p0 != f_len))
+        if e0 != ('ok', (True, True, False)):
+            acc.violation('path_not_equal_to_fresh', {'config': cfg_name(cfg), 'fresh_has_cached_length': True},
+                          {'level': 'path', 'tier': tier, 'config': cfg, 'history': hist},
+                          observed=e0, expected=('ok', (True, True, False)))
         o1 = observe(p1)
         for oname, fresh in (('fresh_same_segments', f_same), ('fresh_by_value', f_val)):
             of = observe(fresh)
@@ -406,7 +424,10 @@ def successors_path(tier, cfg):
                 f_val = Path(*[rebuild_by_value(s) for s in q])
                 a = apply_path_op(q, op, tier)
                 b = apply_path_op(f_val, op, tier)
-                ok = same_outcome(a, b, tol_for(op[0]))
+                if op[0] == 'q_all':
+                    ok = all(same_outcome(x[1], y[1], tol_for(x[0])) for x, y in zip(a[1], b[1]))
+                else:
+                    ok = same_outcome(a, b, tol_for(op[0]))
                 if not ok and op[0] == 'q_length_coarse' and a[0] == b[0] == 'ok':
                     # cached finer per-segment values are legitimate answers to a coarse request
                     ok = legit_length(a[1], list(p), (COARSE, 5))
@@ -441,6 +462,7 @@ ATTRS = {'L': ['start', 'end'], 'Q': ['start', 'control', 'end'],
 ALT = complex(2 * S, -7 * S)
 
 SEG_QUERIES = [
+    ['all'],
     ['length'],
     ['length', COARSE, 1],
     ['length', COARSE, 5],
@@ -465,6 +487,8 @@ def seg_ops(state):
 
 
 def seg_query(s, q):
+    if q[0] == 'all':
+        return ('ok', [x for x in seg_observe(s) if x[0] != 'length'])
     if q[0] == 'length' and len(q) == 1:
         return outcome(lambda: s.length())
     if q[0] == 'length':
@@ -494,18 +518,27 @@ def seg_truth(s):
 
 
 def seg_observe(s):
+    z = complex(2 * S, 11 * S)
     return [('length', outcome(lambda: s.length())),
             ('point', outcome(lambda: s.point(0.3))),
             ('bpoints', outcome(lambda: tuple(s.bpoints()))),
             ('bbox', outcome(lambda: s.bbox())),
-            ('length_sub', outcome(lambda: s.length(0.25, 0.75)))]
+            ('length_sub', outcome(lambda: s.length(0.25, 0.75))),
+            ('poly', outcome(lambda: s.poly()(0.3))),
+            ('poly_coeffs', outcome(lambda: tuple(s.poly(return_coeffs=True)))),
+            ('points', outcome(lambda: tuple(s.points([0.3, 0.6])))),
+            ('derivative', outcome(lambda: s.derivative(0.3))),
+            ('unit_tangent', outcome(lambda: s.unit_tangent(0.3))),
+            ('radialrange', outcome(lambda: s.radialrange(z))),
+            ('split', outcome(lambda: tuple(tuple(x.bpoints()) for x in s.split(0.4)))),
+            ('reversed', outcome(lambda: tuple(s.reversed().bpoints())))]
 
 
 def seg_sig(hist, who):
     # abstract features: kinds of ops in history, in order of first appearance
     feats = []
     for op in hist:
-        f = op[0] if op[0] != 'q' else 'q_' + ('default' if len(op) == 3 else
+        f = op[0] if op[0] != 'q' else 'q_' + ('all' if op[2] == 'all' else 'default' if len(op) == 3 else
                                                ('sub' if op[2] == 'length_sub' else
                                                 ('coarse' if op[3] == COARSE else 'fine')))
         if f not in feats:
@@ -523,7 +556,7 @@ def inspect_seg(cfg, spec_kind):
             fresh = rebuild_by_value(s)
             oa, ob = seg_observe(s), seg_observe(fresh)
             for (qn, a), (_, b) in zip(oa, ob):
-                ok = same_outcome(a, b)
+                ok = same_outcome(a, b, 1e-9 if qn == 'ilength' else TOL)
                 if not ok and qn == 'length' and a[0] == b[0] == 'ok':
                     truth = seg_truth(s)
                     ok = abs(a[1] - truth) <= abs(b[1] - truth) * (1 + 1e-9) + TOL
@@ -556,7 +589,10 @@ def successors_seg(cfg, spec):
                 s = st[op[1]]
                 fresh = rebuild_by_value(s)
                 a, b = seg_query(s, op[2:]), seg_query(fresh, op[2:])
-                ok = same_outcome(a, b)
+                if op[2] == 'all':
+                    ok = all(same_outcome(x[1], y[1], 1e-9 if x[0] == 'ilength' else TOL) for x, y in zip(a[1], b[1]))
+                else:
+                    ok = same_outcome(a, b)
                 if not ok and a[0] == b[0] == 'ok' and op[2] == 'length':
                     truth = seg_truth(s)
                     ok = abs(a[1] - truth) <= abs(b[1] - truth) * (1 + 1e-9) + TOL
@@ -609,6 +645,45 @@ def run_hash_eq(acc):
                                       detail='%s == %s but hashes differ' % (da, db))
 
 
+def run_hash_collisions(cfg, acc, only=None):
+    """reassign a control point to a DIFFERENT value with the SAME hash (CPython: hash(-1.0) ==
+    hash(-2.0)), after the caches were filled: a cache keyed on hash(self) instead of the control
+    points would not notice"""
+    specs = {'L': (Line, ['start', 'end'], [0j, 4 + 3j]),
+             'Q': (QuadraticBezier, ['start', 'control', 'end'], [0j, 2 + 5j, 6 + 0j]),
+             'C': (CubicBezier, ['start', 'control1', 'control2', 'end'], [0j, 1 + 3j, 4 + 3j, 6 + 0j])}
+    pairs = [(-1 + 3j, -2 + 3j), (-2 - 1j, -1 - 1j), (complex(5, -1), complex(5, -2))]
+    assert all(hash(a) == hash(b) and a != b for a, b in pairs)
+    for kind, (cls, attrs, base) in specs.items():
+        for ai, attr in enumerate(attrs):
+            for pi, (v1, v2) in enumerate(pairs):
+                case = {'level': 'hash_collision', 'config': cfg, 'kind': kind, 'attr': attr, 'pair': pi}
+                if only and case != only:
+                    continue
+                pts = list(base)
+                pts[ai] = v1
+                s_ = cls(*pts)
+                seg_observe(s_)                       # fill every cache
+                rev = outcome(lambda: s_.reversed())
+                setattr(s_, attr, v2)
+                fresh = rebuild_by_value(s_)
+                acc.case(case, cls='hash_collision/%s' % kind)
+                for (qn, a), (_, b) in zip(seg_observe(s_), seg_observe(fresh)):
+                    if not same_outcome(a, b, 1e-9):
+                        acc.violation('segment_query_differs_from_fresh',
+                                      {'query': qn, 'kind': kind, 'config': cfg_name(cfg), 'ops': ['q_all', 'assign_same_hash'], 'object': 'original'},
+                                      case, observed=a, expected=b)
+                        break
+                p_ = Path(cls(*[v1 if i == ai else q for i, q in enumerate(base)]))
+                observe(p_)
+                setattr(p_[0], attr, v2)              # not through the Path interface: only the segment-level claim is judged
+                fr = rebuild_by_value(p_[0])
+                if not same_outcome(outcome(lambda: p_[0].length()), outcome(lambda: fr.length()), 1e-9):
+                    acc.violation('segment_query_differs_from_fresh',
+                                  {'query': 'length', 'kind': kind, 'config': cfg_name(cfg), 'ops': ['path_queries', 'assign_same_hash'], 'object': 'original'},
+                                  case, observed=p_[0].length(), expected=fr.length())
+
+
 # ---------------------------------------------------------------- harness interface
 
 def shards(tier, seed):
@@ -621,6 +696,8 @@ def shards(tier, seed):
         for spec in SEG_SPECS:
             out.append({'what': 'segment', 'config': cfg, 'spec': spec})
     out.append({'what': 'hash_eq'})
+    out.append({'what': 'hash_collision', 'config': True})
+    out.append({'what': 'hash_collision', 'config': False})
     return out
 
 
@@ -637,7 +714,9 @@ def run_shard(desc, tier, seed):
     old = sp._quad_available
     sp._quad_available = bool(cfg)
     try:
-        if desc['what'] == 'path':
+        if desc['what'] == 'hash_collision':
+            run_hash_collisions(cfg, acc)
+        elif desc['what'] == 'path':
             vt = desc.get('variant', tier)
             fix = core.parallel_bfs([([], Path())], successors_path(vt, cfg), path_key,
                                     inspect_path(vt, cfg), acc, jobs=16)
@@ -687,6 +766,12 @@ def replay(case):
     cfg = case['config']
     old = sp._quad_available
     sp._quad_available = bool(cfg)
+    if case['level'] == 'hash_collision':
+        try:
+            run_hash_collisions(cfg, acc, only=case)
+        finally:
+            sp._quad_available = old
+        return acc.vlist
     try:
         hist = case['history']
         if case['level'] == 'path':
